@@ -202,8 +202,8 @@ def run(ctx):
                            "true" if facts["idReadUnderLock"] else "false"))
     ctx.build()
     rng = ctx.rng
-    n_lock = 10000 if ctx.thorough else 2200
-    n_thr = 2500 if ctx.thorough else 450
+    n_lock = 10000 if ctx.thorough else 1600
+    n_thr = 2500 if ctx.thorough else 320
 
     # ---------------- lockstep correspondence + oracle
     reqs, checks = [], []  # checks: (line index, kind, expected, case id)
